@@ -59,6 +59,8 @@ fn init_scheduler() {
             #[cfg(may_verif)]
             crate::verif::label("timer.handler.take", Arc::as_ptr(&c) as usize);
             if let Some(mut co) = c.take() {
+                #[cfg(may_verif)]
+                crate::verif::label("timer.handler.resumed", Arc::as_ptr(&c) as usize);
                 // set the timeout result for the coroutine
                 set_co_para(&mut co, io::Error::new(io::ErrorKind::TimedOut, "timeout"));
                 // s.schedule_global(c);
